@@ -251,6 +251,11 @@ func serverForwardRequests(
 		// no one uses.
 		delete(req.Header, "Upgrade")
 
+		// Do not let req.Write add its default User-Agent when the client sent none.
+		if _, ok := req.Header["User-Agent"]; !ok {
+			req.Header["User-Agent"] = []string{""}
+		}
+
 		// Notify the response forwarding routine about the request before writing it out,
 		// so that a received 1xx informational response can be forwarded back to the client
 		// in time, unblocking the write.
